@@ -8,7 +8,7 @@ adds one variable `s` (the scale) at position `n_base = len(op.l)`.  Literally, 
 
 1. every base row `A x (kind) b` becomes `A x − (b/norm)·s (kind) 0`; the new column is appended
    to `A` (a base without matrix gets an empty matrix with `n_base + 1` columns);
-2. `Idisp` = the distinct values of the mapping index over the rows of type 'd', in order of first
+2. `Idisp` = the distinct values of the mapping index over the rows of type 'd' and the non-boolean rows of type 'i', in order of first
    occurrence; `nD = |Idisp|`;  bounds of the variables `Idisp` are widened to
    `min(0,l)·max_scale/norm`, `max(0,u)·max_scale/norm` (other variables keep their bounds);
 3. `nD` rows `U` and `nD` rows `L` are stacked below: row `k` has a 1 in column `Idisp[k]` and
@@ -38,8 +38,12 @@ structure ScaledP where
 def ScaledP.ctorOk (p : ScaledP) : Bool :=
   decide (p.minScale ≤ p.maxScale) && decide (0 ≤ p.minScale) && decide (0 < p.normScale)
 
-/-- `op.mapping.index[op.mapping['type']=='d'].unique()` — order of first occurrence -/
-def dispVars (M : List MapRow) : List Nat := ((M.filter (·.kind == .d)).map (·.var)).eraseDups
+/-- is a mapping row one of a capacity variable: type 'd', or type 'i' (dispatch at an internal node of a wrapped
+    structured asset) unless flagged boolean -/
+def isCapRow (m : MapRow) : Bool := m.kind == .d || (m.kind == .i && !m.isBool)
+
+/-- `op.mapping.index[(type=='d') | ((type=='i') & ~bool)].unique()` — order of first occurrence -/
+def dispVars (M : List MapRow) : List Nat := ((M.filter isCapRow).map (·.var)).eraseDups
 
 /-- step 1: `A x − (b/norm) s (kind) 0`, scale in column `sc` -/
 def scaleRow (nrm : Rat) (sc : Nat) (r : Row) : Row :=
